@@ -68,7 +68,7 @@ func (r *Route) VerifAddTarget(service string, u *url.URL, fixedWeight float64, 
 func (r *Route) VerifSetWeight(service string, weight float64, tags []string) int {
 	return r.setWeight(service, weight, tags)
 }
-func (r *Route) VerifWeighTargets() { r.weighTargets() }
+func (r *Route) VerifWeighTargets()                    { r.weighTargets() }
 func (r *Route) VerifFilter(skip func(t *Target) bool) { r.filter(skip) }
 
 // VerifPick runs a picker by name ("rr" / "rnd") on the route.
